@@ -21,7 +21,8 @@ func vhImplementedRef(m AuthMethod) bool {
 // run has no mutually usable method; authentication exactly when either side
 // requires it, or either prefers it, neither forbids it and a usable common
 // method exists; encryption on whenever either side requires it; method and
-// cipher are the first of the server's list that the client also lists.
+// cipher are the first of the server's list that the client also lists and that
+// cedar can perform.
 //
 // The authentication half and the encryption half of the function are
 // independent computations; each is explored with the other half held at
@@ -68,7 +69,8 @@ func vhTable(authHalf bool) {
 		for _, x := range cli.CryptoMethods {
 			in = vOr(in, x == s)
 		}
-		c = CryptoMethod(vIteStr(in, string(s), string(c)))
+		// only a cipher cedar can key a fresh session with counts (AES)
+		c = CryptoMethod(vIteStr(vAnd(in, s == CryptoAES), string(s), string(c)))
 	}
 	req, pref, never := SecurityRequired, SecurityPreferred, SecurityNever
 	authIncompat := vOr(vAnd(cA == req, sA == never), vAnd(cA == never, sA == req))
